@@ -190,7 +190,8 @@ fn gen_cases(ctx: &Ctx) -> Vec<Case> {
                 // operand-kind confusion
                 let wrong: Vec<&str> = match *op {
                     Opk::Reg { .. } => vec!["5", "0", "X", "Z+", "-Y", "Y+1", "undefined_name", "low(3)"],
-                    Opk::Imm { .. } | Opk::ImmCom { .. } | Opk::Addr8l { .. } | Opk::Rel { .. } => vec!["r5", "r16", "X", "Z+", "-Y", "Y+1"],
+                    // (a character literal holds exactly one character: 'AB' is not a way to write 'A')
+                    Opk::Imm { .. } | Opk::ImmCom { .. } | Opk::Addr8l { .. } | Opk::Rel { .. } => vec!["r5", "r16", "X", "Z+", "-Y", "Y+1", "'AB'", "'10'", "''", "'\\n'", "\"A\"", "'A", "0x", "1 2", "1,"],
                     Opk::Disp { .. } => vec!["X+1", "X+0", "X+63", "r5", "5"],
                     Opk::Index(ix) => {
                         if form.mn == "lpm" || form.mn == "elpm" {
